@@ -44,7 +44,7 @@ theorem descent_total : ∀ (fuel depth ipix v : Nat) (strict : Bool) (t : Nat),
   | zero =>
     intro depth ipix v strict t _ ht
     simp only [descent]
-    rw [if_pos (by omega)]; rfl
+    rw [if_pos (by omega)]; split <;> rfl
   | succ f ih =>
     intro depth ipix v strict t hdvd ht
     obtain ⟨m, hm⟩ := hdvd
@@ -53,6 +53,9 @@ theorem descent_total : ∀ (fuel depth ipix v : Nat) (strict : Bool) (t : Nat),
     have hpos : 0 < v / 4 := by rw [hsub]; apply Nat.pos_of_ne_zero; intro h0; rw [hv, h0] at ht; omega
     simp only [descent]
     rw [if_pos (by omega)]
+    by_cases ht0 : t = 0
+    · rw [if_pos ht0]; rfl
+    rw [if_neg ht0]
     have ts := takeSub_spec (v / 4) hpos 5 0 t
     simp only [] at ts
     obtain ⟨_, t2, t3, t4⟩ := ts
@@ -76,13 +79,15 @@ example : descent 2 0 4 48 true 17 = some [(1, 16), (2, 68)] := by decide
 
 
 /-- **Enclosed value of the four descents** (dyadic cell value `v`, target `t < v`; one deepest piece
-    is `v / 4^fuel`): upper boundary, both orders — strict: within one piece BELOW the target;
-    non-strict: within one piece ABOVE it. -/
+    is `v / 4^fuel`): upper boundary, both orders — strict: LESS than one piece below the target;
+    non-strict: LESS than one piece above it (strict inequalities: a threshold lying exactly on a sub-cell boundary
+    cuts nothing and is met exactly — repaired, /repo "fix: a threshold exactly on a sub-cell boundary …"; with the
+    former code the difference could be a whole piece). -/
 theorem upper_descents_mass (fuel depth ipix v : Nat) (strict rev : Bool) (t : Nat) (cs : List Cell)
     (hd : 4 ^ fuel ∣ v) (ht : t < v)
     (h : (if rev then descentR else descent) fuel depth ipix v strict t = some cs) :
     (strict = true → massOf v depth cs ≤ t ∧ t < massOf v depth cs + v / 4 ^ fuel) ∧
-    (strict = false → t ≤ massOf v depth cs ∧ massOf v depth cs ≤ t + v / 4 ^ fuel) := by
+    (strict = false → t ≤ massOf v depth cs ∧ massOf v depth cs < t + v / 4 ^ fuel) := by
   cases rev with
   | true => exact (descentR_mass fuel depth ipix v strict t cs hd ht (by simpa using h)).2
   | false => exact (descent_mass fuel depth ipix v strict t cs hd ht (by simpa using h)).2
@@ -92,8 +97,8 @@ theorem upper_descents_mass (fuel depth ipix v : Nat) (strict rev : Bool) (t : N
 theorem lower_descents_mass (fuel depth ipix v : Nat) (strict rev : Bool) (t : Nat) (cs : List Cell)
     (hd : 4 ^ fuel ∣ v) (ht : t < v)
     (h : (if rev then descentRRev else descentRev) fuel depth ipix v strict t = some cs) :
-    (strict = true → massOf v depth cs + t ≤ v ∧ v ≤ massOf v depth cs + t + v / 4 ^ fuel) ∧
-    (strict = false → v ≤ massOf v depth cs + t ∧ massOf v depth cs + t ≤ v + v / 4 ^ fuel) := by
+    (strict = true → massOf v depth cs + t ≤ v ∧ v < massOf v depth cs + t + v / 4 ^ fuel) ∧
+    (strict = false → v ≤ massOf v depth cs + t ∧ massOf v depth cs + t < v + v / 4 ^ fuel) := by
   cases rev with
   | true => exact (descentRRev_mass fuel depth ipix v strict t cs hd ht (by simpa using h)).2
   | false => exact (descentRev_mass fuel depth ipix v strict t cs hd ht (by simpa using h)).2
@@ -185,10 +190,10 @@ theorem selection_mass_bracket (maxDepth : Nat) (cells : List VCell) (from_ to :
 
 /-- The hypothesis `NotSameCell` is necessary (this is the open finding): one cell of value 64 at
     depth 0, maximum depth 1, `from = 16`, `to = 32` (both strictly inside the cell), strict, split:
-    the lower-boundary descent keeps the two upper quarters (32) and the upper threshold is never
-    looked at — in STRICT mode the selection encloses 32 for a target of 16. -/
+    the lower-boundary descent keeps the three upper quarters (48: everything above `from`) and the upper threshold
+    is never looked at — in STRICT mode the selection encloses 48 for a target of 16. -/
 theorem both_thresholds_one_cell_counterexample :
-    selectWithMass 1 [⟨0, 0, 64, 64⟩] 16 32 false true false false = some ([(1, 2), (1, 3)], 32, 16, 0) ∧
+    selectWithMass 1 [⟨0, 0, 64, 64⟩] 16 32 false true false false = some ([(1, 1), (1, 2), (1, 3)], 48, 16, 0) ∧
     ¬ NotSameCell [⟨0, 0, 64, 64⟩] 16 32 false := by
   constructor
   · decide
